@@ -256,7 +256,7 @@ fn gen_lifetime(rng: &mut Rng) -> String {
 fn gen_manifest(rng: &mut Rng) -> String {
     let mut lines: Vec<String> = vec![];
     let sp = |rng: &mut Rng| -> &'static str { *rng.pick(&["", "", "", " ", "  ", "\t"]) };
-    let eid = |rng: &mut Rng| -> String { if rng.chance(1, 25) { (*rng.pick(&["dtn:none", "dtn:x", "ipn:0.1", "http://a", "", "ipn:1", "dtn://none"])).to_string() } else { loop { let e = gen_eid_wf(rng); let mut s = e.to_string(); if s.starts_with("dtn://") && rng.chance(1, 4) { s.push_str(*rng.pick(&["?prio=high", "=", "?a=b&c=d", "/k=v/"])); } if !s.contains('\n') { break s; } } } };
+    let eid = |rng: &mut Rng| -> String { if rng.chance(1, 25) { (*rng.pick(&["dtn:none", "dtn:x", "ipn:0.1", "http://a", "", "ipn:1", "dtn://none"])).to_string() } else { loop { let e = gen_eid_wf(rng); let mut s = e.to_string(); if s.starts_with("dtn://") && rng.chance(1, 4) { s.push_str(*rng.pick(&["?prio=high", "=", "?a=b&c=d", "/k=v/", "#general", "/x#y", ";id=1", "%23"])); } if !s.contains('\n') { break s; } } } };
     if !rng.chance(1, 30) { let a = sp(rng); let b = sp(rng); let v = eid(rng); lines.push(format!("destination{}={}{}", a, b, v)); }
     if rng.chance(4, 5) { let a = sp(rng); let v = eid(rng); lines.push(format!("source{}={}", a, v)); }
     if rng.chance(1, 2) { let v = eid(rng); lines.push(format!("report_to={}", v)); }
